@@ -2,6 +2,8 @@
 //! oracle: the value of f(args) right after f's definition equals the value of the same call
 //! placed in every generated context (shadowing parameter, shadowing do-local, callback
 //! position of via/where/map/filter/reduce/sort_by, nested call, after later definitions);
+//! the same with parameters / do-block locals spelled like a built-in function and read through
+//! the record shorthand (`(sqrt) => (() => {sqrt})`, defect D3);
 //! arity: for every parameter list of the documented shape and every argument count the
 //! binding is positional, optional ↦ null, rest ↦ list, other counts ↦ error.
 //! correspondence: every program against the Lean evaluator.
@@ -49,48 +51,28 @@ pub fn run(ctx: &Ctx, rep: &mut Report) {
         names.push("local".into());
         names.push("arg".into());
         let shadow = if i % 8 >= 5 && reuse.is_some() { reuse.clone().unwrap() } else if names.is_empty() { "zz".to_string() } else { rng.pick(&names).clone() };
-        let contexts = vec![
-            call.clone(),
-            format!("({} => {})(777)", shadow, call),
-            format!("do {{\n  {} = 888\n  return {}\n}}", shadow, call),
-            format!("([0] via ({} => {}))[0]", shadow, call),
-            format!("(map([0], ({}, i) => {}))[0]", shadow, call),
-            format!("([0] where ({} => {} .== {}))", shadow, call, call),
-            format!("reduce([0], (acc, {}) => {}, 0)", shadow, call),
-            format!("(sort_by([0], {} => 1) via (q => {}))[0]", shadow, call),
-            format!("(({}, other) => ({} => {})(1))(2, 3)", shadow, shadow, call),
-            format!("later_{} = 5\n{}", i, call),
-            format!("[1] into (l => {})", call),
-        ];
-        let src = format!("{}\n{}\n{}", prefix, def, contexts.join("\n"));
-        rep.case(&src, true);
-        let sess = match check_session(&mut model, rep, &src, None, "c04") {
-            Some(s) => s,
-            None => continue,
+        check_contexts(&mut model, rep, &prefix, &def, &call, &shadow, i);
+    }
+
+    // (D3) a parameter / do-block local spelled like a built-in function, read through the record
+    // shorthand: it is a free name of the inner function like any other, captured at definition;
+    // every context rebinds that very name
+    let n_bi = ctx.budget(60, 600);
+    let spelled = ["sqrt", "sum", "max", "len", "map", "keys", "round", "filter"];
+    for i in 0..n_bi {
+        let ns = 1 + rng.below(3);
+        let (prefix, sc) = evgen::gen_program(&mut rng, ns, 1);
+        let bt = *rng.pick(&[Ty::Num, Ty::ListNum, Ty::Str, Ty::Rec, Ty::Bool]);
+        let body = evgen::gexpr(&mut rng, bt, &sc, 2);
+        let name = *rng.pick(&spelled);
+        let (def, call) = match i % 5 {
+            0 => (format!("mk = ({}) => (() => [{{{}}}, {}])\nclo = mk(5)", name, name, body), "clo()".to_string()),
+            1 => (format!("clo = () => ((({}) => (() => {{{}, n: 1}}))(1))()", name, name), "clo()".to_string()),
+            2 => (format!("clo = do {{\n  {} = 3\n  return (u => [u, {{{}}}, {}])\n}}", name, name, body), "clo(2)".to_string()),
+            3 => (format!("mk = ({}) => (() => (() => {{v: {{{}}}, w: {}}}))\nclo = mk(5)()", name, name, body), "clo()".to_string()),
+            _ => (format!("clo = ({}) => [{{{}}}, {}]", name, name, body), "clo(41)".to_string()),
         };
-        // outcomes of the context statements: the last statement of each context
-        let stmts = statements(&src).unwrap();
-        let n_ctx_stmts: usize = contexts.iter().map(|c| statements(c).map(|v| v.len()).unwrap_or(1)).sum();
-        let base_idx = stmts.len() - n_ctx_stmts;
-        let reference = &sess.outcomes[base_idx];
-        if reference.contains("(lambda") {
-            continue;
-        }
-        let mut idx = base_idx;
-        for c in contexts.iter() {
-            let k = statements(c).map(|v| v.len()).unwrap_or(1);
-            idx += k;
-            let got = &sess.outcomes[idx - 1];
-            // contexts that wrap the result are unwrapped in the source, except `where`
-            if c.contains(" where ") {
-                continue;
-            }
-            if got != reference {
-                rep.finding("oracle", "call-site-dependent", &format!("{}\n{}\n-- context --\n{}", prefix, def, c),
-                    &format!("at definition: {} in context: {}", short(reference), short(got)), "c04.call-site");
-                break;
-            }
-        }
+        check_contexts(&mut model, rep, &prefix, &def, &call, name, 100000 + i);
     }
 
     // parameter binding of the documented shape: required*, optional*, rest?
@@ -141,6 +123,11 @@ pub fn run(ctx: &Ctx, rep: &mut Report) {
         ("f = (a) => (t = a) + 1\ng = (t) => f(t)\n[f(1), g(1)]", "[2, 2]"),
         ("k = 3\nadd = x => x + k\n[5] via (k => add(k))", "[8]"),
         ("fact = n => if n <= 1 then 1 else n * fact(n - 1)\nh = fact\n[h(5), map([5], h)[0], ([5] via h)[0]]", "[120, 120, 120]"),
+        // (D3) names spelled like built-ins, read through the record shorthand
+        ("mk = (sqrt) => (() => {sqrt})\ng = mk(1)\ng()", "{sqrt: 1}"),
+        ("mk = (sqrt) => (() => {sqrt})\ng = mk(1)\nh = (sqrt) => g()\nh(7)", "{sqrt: 1}"),
+        ("F = () => (((sum) => (() => {sum, n: 1}))(1))()\nG = (sum) => F()\n[F(), G(5)]", "[{sum: 1, n: 1}, {sum: 1, n: 1}]"),
+        ("F = () => do {\n  max = 3\n  return (() => {max})\n}\ng = F()\nh = (max) => g()\n[g(), h(9), do {\n  max = 888\n  return g()\n}]", "[{max: 3}, {max: 3}, {max: 3}]"),
     ];
     for (src, expect) in fixed.iter() {
         rep.case(src, true);
@@ -152,4 +139,51 @@ pub fn run(ctx: &Ctx, rep: &mut Report) {
         }
     }
     rep.model_requests = model.requests;
+}
+
+/// the value of `call` right after the definition against the value of the same call placed in
+/// every context of the context grammar, each of which rebinds the name `shadow`
+fn check_contexts(model: &mut Model, rep: &mut Report, prefix: &str, def: &str, call: &str, shadow: &str, i: usize) {
+    let contexts = vec![
+        call.to_string(),
+        format!("({} => {})(777)", shadow, call),
+        format!("do {{\n  {} = 888\n  return {}\n}}", shadow, call),
+        format!("([0] via ({} => {}))[0]", shadow, call),
+        format!("(map([0], ({}, i) => {}))[0]", shadow, call),
+        format!("([0] where ({} => {} .== {}))", shadow, call, call),
+        format!("reduce([0], (acc, {}) => {}, 0)", shadow, call),
+        format!("(sort_by([0], {} => 1) via (q => {}))[0]", shadow, call),
+        format!("(({}, other) => ({} => {})(1))(2, 3)", shadow, shadow, call),
+        format!("later_{} = 5\n{}", i, call),
+        format!("[1] into (l => {})", call),
+    ];
+    let src = format!("{}\n{}\n{}", prefix, def, contexts.join("\n"));
+    rep.case(&src, true);
+    let sess = match check_session(model, rep, &src, None, "c04") {
+        Some(s) => s,
+        None => return,
+    };
+    // outcomes of the context statements: the last statement of each context
+    let stmts = statements(&src).unwrap();
+    let n_ctx_stmts: usize = contexts.iter().map(|c| statements(c).map(|v| v.len()).unwrap_or(1)).sum();
+    let base_idx = stmts.len() - n_ctx_stmts;
+    let reference = &sess.outcomes[base_idx];
+    if reference.contains("(lambda") {
+        return;
+    }
+    let mut idx = base_idx;
+    for c in contexts.iter() {
+        let k = statements(c).map(|v| v.len()).unwrap_or(1);
+        idx += k;
+        let got = &sess.outcomes[idx - 1];
+        // contexts that wrap the result are unwrapped in the source, except `where`
+        if c.contains(" where ") {
+            continue;
+        }
+        if got != reference {
+            rep.finding("oracle", "call-site-dependent", &format!("{}\n{}\n-- context --\n{}", prefix, def, c),
+                &format!("at definition: {} in context: {}", short(reference), short(got)), "c04.call-site");
+            break;
+        }
+    }
 }
